@@ -19,13 +19,19 @@ EXPLANATION = ("path-exhaustive symbolic execution of the REAL compute_config()/
 ASSUMPTIONS = ["Python floats modelled as exact reals; every oracle carries a 1e-9 relative slack in the direction that favours the code, so a verdict never hinges on a 1-ulp tie",
                "divider spaces explored through windows (stated per job); the full product (e.g. 56x63x128) is outside the claim",
                "margins: the caller's float constant (1e-2 default, 1e-3, 0) converted exactly; 1-2 outputs",
-               "device limits LiteX does not declare (e.g. Xilinx/iCE40 PFD range) are not judged; logging stubbed"]
-BOUNDS = {"quick": "S7PLL/S7MMCM/USMMCM/S6PLL: 2-3 windows x 1 output + 1 window x 2 outputs; iCE40PLL 2 windows; ECP5PLL 2 windows (1-2 outputs)",
-          "thorough": "more windows (low/high/interior of each range), 2 outputs for every Xilinx family, margins {1e-2,1e-3,0}, ECP5 3 windows"}
-OUTSIDE = "the full divider product in one query; Intel (ceil/floor/geometric-mean ranking over symbolic values), NX/Gowin/Efinix/GateMate helpers are not encoded in this round and are NOT claimed; float effects beyond the slack (e.g. ECP5 int() of a float quotient one ulp below an integer)"
+               "device limits LiteX does not declare (e.g. Xilinx/iCE40 PFD range) are not judged; logging stubbed",
+               "Intel: the ranking of valid configurations (geometric mean of the error ratios, a dictionary keyed by it) is over-approximated by fresh symbolic ranks: every selection among the valid configurations is covered",
+               "literal divider loops inside a function (Gowin range(1, 64), USPMMCM range(16, 1025)) are windowed by replacing the module-level name `range`; math.ceil/floor/isclose, int() and float('inf') get symbolic-aware twins in the module namespace",
+               "margin test: where the code compares against the obtained instead of the requested frequency (USPMMCM math.isclose, Gowin) the soundness oracle accepts either reference (second-order difference m^2)"]
+BOUNDS = {"quick": "S7PLL/S7MMCM/USMMCM/S6PLL: 2-3 windows x 1 output + 1 window x 2 outputs; iCE40PLL 2 windows; ECP5PLL 2 windows (1-2 outputs); CycloneIV/Max10 1 window each (1-2 outputs); NXPLL 1 window; GW1NPLL 1 window x 1 output",
+          "thorough": "more windows (low/high/interior of each range), 2 outputs for every Xilinx family incl. USPMMCM's own search, margins {1e-2,1e-3,0}, ECP5 3 windows, CycloneIV/V/Max10 5 windows, NXPLL 3 windows, GW1NPLL 2 outputs"}
+OUTSIDE = ("the full divider product in one query; Efinix (platform-bound search), Gowin GW2A/GW5A, GateMate (no search: frequencies are handed to the vendor primitive) are not encoded and NOT claimed; "
+           "do_finalize string parameters of Gowin/Intel beyond divider/multiplier equality; Gowin requests with frequency ratios >= 9; float effects beyond the slack (e.g. ECP5 int() of a float quotient one ulp below an integer)")
 FUNCS = ["litex.soc.cores.clock.xilinx_common.XilinxClocking.compute_config", "litex.soc.cores.clock.common.clkdiv_range", "litex.soc.cores.clock.xilinx_s7.S7PLL.do_finalize",
          "litex.soc.cores.clock.xilinx_s7.S7MMCM.do_finalize", "litex.soc.cores.clock.xilinx_s6.S6PLL", "litex.soc.cores.clock.xilinx_us.USMMCM",
-         "litex.soc.cores.clock.lattice_ice40.iCE40PLL.compute_config", "litex.soc.cores.clock.lattice_ecp5.ECP5PLL.compute_config"]
+         "litex.soc.cores.clock.lattice_ice40.iCE40PLL.compute_config", "litex.soc.cores.clock.lattice_ecp5.ECP5PLL.compute_config",
+         "litex.soc.cores.clock.intel_common.IntelClocking.compute_config/do_finalize", "litex.soc.cores.clock.lattice_nx.NXPLL.compute_config", "litex.soc.cores.clock.gowin_gw1n.GW1NPLL.compute_config",
+         "litex.soc.cores.clock.xilinx_usp.USPMMCM.compute_config"]
 
 SL = Fraction(1, 10**9)
 
@@ -369,7 +375,7 @@ def jobs(tier):
     js.append(Job("ecp5pll_low_1out", job_ecp5, dict(win=dict(clki_div=(1, 2), clko_div=(1, 3), clkfb_div=(1, 2)), nout=1, margin=1e-2, tag="low_1out"), cost=20, timeout_s=7000))
     js.append(Job("ecp5pll_mid_2out", job_ecp5, dict(win=dict(clki_div=(1, 2), clko_div=(2, 3), clkfb_div=(2, 2)), nout=2, margin=1e-2, tag="mid_2out"), cost=80, timeout_s=7000))
     if T:
-        js.append(Job("ecp5pll_high_2out", job_ecp5, dict(win=dict(clki_div=(1, 2), clko_div=(5, 4), clkfb_div=(3, 3)), nout=2, margin=1e-2, tag="high_2out"), cost=300, timeout_s=7000))
+        js.append(Job("ecp5pll_high_2out", job_ecp5, dict(win=dict(clki_div=(1, 2), clko_div=(5, 3), clkfb_div=(3, 2)), nout=2, margin=1e-2, tag="high_2out"), cost=300, timeout_s=7000))
         js.append(Job("ice40pll_mid", job_ice40, dict(win=dict(divr=(2, 3), divf=(40, 3), divq=(2, 4)), margin=1e-3, tag="mid"), cost=5))
     from vf.props import c20_intel
     js += c20_intel.jobs(tier)
